@@ -1,13 +1,17 @@
 /-
 Model A for C03: `set()` of containers with native (Python) values and the `.value` export
 (`Sequence.set`, `Dict.set` with its policies, `SparseDict`, `Mapping.value`, `Sequence.value`;
-schema/containers.py), over *table-driven leaf-likes*: what a scalar, a JoinedString or a
-DateYYYYMMDD makes of a native input is `env.adapt k x = (adapted?, value, text, parts)` — the
-subject of C04 / C18, computed by the harness from the real classes in isolation.
+schema/containers.py, `to_pairs` of util.py), over *table-driven leaf-likes*: what a scalar, a
+JoinedString or a DateYYYYMMDD in state `st` makes of a native input is
+`env.adapt k st x = (adapted?, value, text, parts)`, computed by the harness from the real classes
+in isolation.
 
-`setNative` returns the exception class where the real `set()` raises (unknown keys under the
-subset/strict policy, missing keys under strict); C03 only speaks about calls that *returned
-True*.
+`setNative env s cur x` is `el.set(x)` on an element of schema `s` that is in state `cur` (a fresh
+element is `blank env s`).  The current state matters where the real code keeps it: `Dict.set`
+returns False *before* `_reset()` when `list(to_pairs(value))` raises, so a member that is set a
+second time through a duplicate key keeps what the first `set()` built; a DateYYYYMMDD given None
+keeps its members.  It returns the exception class where the real `set()` raises (unknown keys
+under the subset/strict policy, missing keys under strict, unhashable keys).
 -/
 namespace Flatland.C03
 
@@ -16,13 +20,77 @@ abbrev Str := List Char
 /-- native Python values, as far as containers look into them -/
 inductive Native
   | none
-  | atom (tag : Str)                    -- an opaque scalar native (int, bool, date, Decimal, …)
+  | atom (tag : Str)                    -- an opaque, hashable, non-iterable scalar (int, bool, date, Decimal, …)
   | text (s : Str)
-  | list (xs : List Native)             -- list / tuple
-  | dict (kvs : List (Str × Native))    -- dict with text keys, insertion order
-  | pairs (kvs : List (Str × Native))   -- a list of (key, value) 2-tuples
-  | junk                                -- neither iterable nor dict-like (e.g. an int given to a container)
+  | list (xs : List Native)             -- list; also a generator / iterator (consumed once by `set`)
+  | tuple (xs : List Native)            -- tuple (hashable when its items are)
+  | dict (kvs : List (Native × Native)) -- dict, insertion order
+  | ntuple (kvs : List (Str × Native))  -- namedtuple: field names and values
+  | junk                                -- hashable, neither iterable nor dict-like, no scalar takes it
   deriving Inhabited
+
+/-! ### decidable equality of natives (the nested type has no derive handler) -/
+
+mutual
+def Native.beq : Native → Native → Bool
+  | .none, .none => true
+  | .atom a, .atom b => a == b
+  | .text a, .text b => a == b
+  | .list a, .list b => Native.beqL a b
+  | .tuple a, .tuple b => Native.beqL a b
+  | .dict a, .dict b => Native.beqD a b
+  | .ntuple a, .ntuple b => Native.beqN a b
+  | .junk, .junk => true
+  | _, _ => false
+def Native.beqL : List Native → List Native → Bool
+  | [], [] => true
+  | a :: as, b :: bs => Native.beq a b && Native.beqL as bs
+  | _, _ => false
+def Native.beqD : List (Native × Native) → List (Native × Native) → Bool
+  | [], [] => true
+  | (a, a') :: as, (b, b') :: bs => Native.beq a b && Native.beq a' b' && Native.beqD as bs
+  | _, _ => false
+def Native.beqN : List (Str × Native) → List (Str × Native) → Bool
+  | [], [] => true
+  | (a, a') :: as, (b, b') :: bs => a == b && Native.beq a' b' && Native.beqN as bs
+  | _, _ => false
+end
+
+mutual
+theorem Native.beq_iff : ∀ a b : Native, Native.beq a b = true ↔ a = b
+  | .none, b => by cases b <;> simp [Native.beq]
+  | .junk, b => by cases b <;> simp [Native.beq]
+  | .atom a, b => by cases b <;> simp [Native.beq]
+  | .text a, b => by cases b <;> simp [Native.beq]
+  | .list a, b => by cases b <;> simp [Native.beq, Native.beqL_iff a]
+  | .tuple a, b => by cases b <;> simp [Native.beq, Native.beqL_iff a]
+  | .dict a, b => by cases b <;> simp [Native.beq, Native.beqD_iff a]
+  | .ntuple a, b => by cases b <;> simp [Native.beq, Native.beqN_iff a]
+theorem Native.beqL_iff : ∀ a b : List Native, Native.beqL a b = true ↔ a = b
+  | [], b => by cases b <;> simp [Native.beqL]
+  | a :: as, b => by
+    cases b with
+    | nil => simp [Native.beqL]
+    | cons b bs => simp [Native.beqL, Native.beq_iff a, Native.beqL_iff as]
+theorem Native.beqD_iff : ∀ a b : List (Native × Native), Native.beqD a b = true ↔ a = b
+  | [], b => by cases b <;> simp [Native.beqD]
+  | (a, a') :: as, b => by
+    cases b with
+    | nil => simp [Native.beqD]
+    | cons b bs =>
+      obtain ⟨b, b'⟩ := b
+      simp [Native.beqD, Native.beq_iff a, Native.beq_iff a', Native.beqD_iff as, and_assoc]
+theorem Native.beqN_iff : ∀ a b : List (Str × Native), Native.beqN a b = true ↔ a = b
+  | [], b => by cases b <;> simp [Native.beqN]
+  | (a, a') :: as, b => by
+    cases b with
+    | nil => simp [Native.beqN]
+    | cons b bs =>
+      obtain ⟨b, b'⟩ := b
+      simp [Native.beqN, Native.beq_iff a', Native.beqN_iff as, and_assoc]
+end
+
+instance : DecidableEq Native := fun a b => decidable_of_iff _ (Native.beq_iff a b)
 
 inductive Policy | strict | subset | duck | off
   deriving DecidableEq, Repr, Inhabited
@@ -36,19 +104,23 @@ inductive Schema
   | seq (name : Option Str) (opt : Bool) (member : Schema)   -- List / Array
   deriving Inhabited
 
-/-- element state: leaves carry value, text and the texts of their parts (JoinedString members,
-    DateYYYYMMDD fields), which is what `flatten()` can show of them -/
+/-- element state: leaves carry value, text and the texts of the parts `flatten()` shows
+    (DateYYYYMMDD fields; the members of a JoinedString are visible to none of `.value`, `.u`,
+    `==` and `flatten()`) -/
 inductive Elem
   | leaf (v : Native) (u : Str) (parts : List Str)
   | dict (ms : List (Str × Elem))
   | seq (ms : List Elem)
   deriving Inhabited
 
+/-- the state of a leaf-like: `.value`, `.u`, texts of the parts -/
+abbrev LeafState := Native × Str × List Str
+
 structure Env where
-  /-- `K().set(x)`: returned flag, `.value`, `.u`, texts of the parts -/
-  adapt : Nat → Native → Bool × Native × Str × List Str
+  /-- `el.set(x)` on a leaf-like of kind `k` in state `st`: returned flag and new state -/
+  adapt : Nat → LeafState → Native → Bool × LeafState
   /-- a freshly constructed leaf-like: `K()` -/
-  blankLeaf : Nat → Native × Str × List Str
+  blankLeaf : Nat → LeafState
 
 def Schema.name : Schema → Option Str
   | .leaf n .. => n | .dict n .. => n | .seq n .. => n
@@ -70,21 +142,59 @@ def blankRequired (env : Env) : List Schema → List (Str × Elem)
   | f :: fs => if f.opt then blankRequired env fs else (f.name.getD [], blank env f) :: blankRequired env fs
 end
 
-/-- `to_pairs(value)`; `none` = TypeError / ValueError (caught by Dict.set: adapted False) -/
-def toPairs : Native → Option (List (Str × Native))
-  | .dict kvs => some kvs
-  | .pairs kvs => some kvs
-  | .list [] => some []
-  | .text [] => some []          -- iterating '' yields nothing
-  | _ => none
+/-- the members `_reset()` leaves: every field (Dict), none (SparseDict), the required ones
+    (SparseDict with `minimum_fields='required'`) -/
+def blankMs (env : Env) (mode : DictMode) (fields : List Schema) : List (Str × Elem) :=
+  match mode with
+  | .dense => blankFields env fields
+  | .sparse => []
+  | .sparseReq => blankRequired env fields
 
 /-- what iterating a native yields; `none` = TypeError (not iterable) -/
 def iterate : Native → Option (List Native)
   | .list xs => some xs
+  | .tuple xs => some xs
   | .text s => some (s.map (fun c => .text [c]))
-  | .dict kvs => some (kvs.map (fun p => .text p.1))
-  | .pairs kvs => some (kvs.map (fun p => .list [.text p.1, p.2]))
+  | .dict kvs => some (kvs.map (·.1))
+  | .ntuple kvs => some (kvs.map (·.2))
   | _ => none
+
+/-- `((key, value) for key, value in dictlike)`: every item is unpacked into exactly two;
+    `none` = TypeError (item not iterable) / ValueError (wrong arity) -/
+def unpackPairs : List Native → Option (List (Native × Native))
+  | [] => some []
+  | item :: rest =>
+    match iterate item with
+    | some [k, v] =>
+      match unpackPairs rest with
+      | some ps => some ((k, v) :: ps)
+      | none => none
+    | _ => none
+
+/-- `list(to_pairs(value))`; `none` = TypeError / ValueError (caught by Dict.set: adapted False) -/
+def toPairs : Native → Option (List (Native × Native))
+  | .dict kvs => some kvs                                          -- `.items()`
+  | .ntuple kvs => some (kvs.map (fun p => (.text p.1, p.2)))      -- `._asdict().items()`
+  | x =>
+    match iterate x with
+    | none => none
+    | some items => unpackPairs items
+
+mutual
+/-- `hash(x)` does not raise -/
+def hashable : Native → Bool
+  | .list _ => false
+  | .dict _ => false
+  | .tuple xs => hashableL xs
+  | .ntuple kvs => hashableN kvs
+  | _ => true
+def hashableL : List Native → Bool
+  | [] => true
+  | x :: xs => hashable x && hashableL xs
+def hashableN : List (Str × Native) → Bool
+  | [] => true
+  | (_, x) :: xs => hashable x && hashableN xs
+end
 
 def findField (key : Str) : List Schema → Option Schema
   | [] => none
@@ -105,33 +215,51 @@ def fieldNames : List Schema → List Str
 inductive Raise | keyError | typeError
   deriving DecidableEq, Repr, Inhabited
 
-/-- the policy check of `Dict.set`: the exception it raises, if any -/
-def policyRaise (policy : Policy) (fields : List Schema) (keys : List Str) : Option Raise :=
-  let extra := !keys.all (fun k => (fieldNames fields).contains k)
-  let missing := !(fieldNames fields).all (fun n => keys.contains n)
+/-- is the key the name of a field (`key in fields`; only a text equals a field name) -/
+def isField (fields : List Schema) : Native → Bool
+  | .text k => (fieldNames fields).contains k
+  | _ => false
+
+def isText (n : Str) : Native → Bool
+  | .text k => k == n
+  | _ => false
+
+/-- the policy check of `Dict.set`: the exception it raises, if any.  Building the set of given
+    keys raises TypeError on an unhashable key. -/
+def policyRaise (policy : Policy) (fields : List Schema) (keys : List Native) : Option Raise :=
+  let extra := !keys.all (isField fields)
+  let missing := !(fieldNames fields).all (fun n => keys.any (isText n))
+  let unhashable := !keys.all hashable
   match policy with
-  | .strict => if extra then some .keyError else if missing then some .typeError else none
-  | .subset => if extra then some .keyError else none
+  | .strict => if unhashable then some .typeError else if extra then some .keyError
+               else if missing then some .typeError else none
+  | .subset => if unhashable then some .typeError else if extra then some .keyError else none
   | .duck => none
   | .off => none
 
+/-- the state of the leaf-like the element is (a fresh one's, should the element be no leaf) -/
+def leafStateOf (env : Env) (k : Nat) : Elem → LeafState
+  | .leaf v u p => (v, u, p)
+  | _ => env.blankLeaf k
+
 mutual
-/-- `el = cls(); flag = el.set(x)`: the element state and the returned flag, or the exception
-    `set()` raises -/
-def setNative (env : Env) : Schema → Native → Except Raise (Elem × Bool)
-  | .leaf _ _ k, x => let r := env.adapt k x; .ok (.leaf r.2.1 r.2.2.1 r.2.2.2, r.1)
-  | .dict n o mode policy fields, x =>
+/-- `flag = el.set(x)` on an element in state `cur`: the new state and the returned flag, or the
+    exception `set()` raises -/
+def setNative (env : Env) : Schema → Elem → Native → Except Raise (Elem × Bool)
+  | .leaf _ _ k, cur, x =>
+    let r := env.adapt k (leafStateOf env k cur) x
+    .ok (.leaf r.2.1 r.2.2.1 r.2.2.2, r.1)
+  | .dict _ _ mode policy fields, cur, x =>
     match toPairs x with
-    | none => .ok (blank env (.dict n o mode policy fields), false)   -- adapted=False, before _reset
+    | none => .ok (cur, false)                    -- adapted=False, before `_reset()`: state kept
     | some kvs =>
       match policyRaise policy fields (kvs.map (·.1)) with
       | some r => .error r
       | none =>
-        match setPairs env fields
-            (match blank env (.dict n o mode policy fields) with | .dict ms => ms | _ => []) kvs with
+        match setPairs env fields (blankMs env mode fields) kvs with
         | .ok (ms, flag) => .ok (.dict ms, flag)
         | .error r => .error r
-  | .seq _ _ member, x =>
+  | .seq _ _ member, _, x =>                      -- `del self[:]` comes first
     match iterate x with
     | none => .ok (.seq [], false)
     | some xs =>
@@ -141,27 +269,33 @@ def setNative (env : Env) : Schema → Native → Except Raise (Elem × Bool)
       | .error r => .error r
 /-- `for key, value in pairs: if key not in fields: continue; …[key].set(value)` -/
 def setPairs (env : Env) (fields : List Schema) :
-    List (Str × Elem) → List (Str × Native) → Except Raise (List (Str × Elem) × Bool)
+    List (Str × Elem) → List (Native × Native) → Except Raise (List (Str × Elem) × Bool)
   | ms, [] => .ok (ms, true)
   | ms, (key, v) :: rest =>
-    match setOne env fields key v with
-    | none => setPairs env fields ms rest                 -- `if key not in fields: continue`
-    | some (.error r) => .error r
-    | some (.ok (e, f)) =>
-      let ms' := match lookup key ms with
-        | some _ => replace key e ms
-        | none => ms ++ [(key, e)]
-      match setPairs env fields ms' rest with
-      | .ok (ms'', f') => .ok (ms'', f && f')
-      | .error r => .error r
-/-- set the field named `key` (first declared field of that name); `none` = no such field -/
-def setOne (env : Env) : List Schema → Str → Native → Option (Except Raise (Elem × Bool))
-  | [], _, _ => none
-  | f :: fs, key, v => if f.name = some key then some (setNative env f v) else setOne env fs key v
+    if hashable key = false then .error .typeError        -- `key not in fields`: unhashable
+    else match key with
+    | .text k =>
+      match setOne env fields k (lookup k ms) v with
+      | none => setPairs env fields ms rest                 -- `if key not in fields: continue`
+      | some (.error r) => .error r
+      | some (.ok (e, f)) =>
+        let ms' := match lookup k ms with
+          | some _ => replace k e ms
+          | none => ms ++ [(k, e)]
+        match setPairs env fields ms' rest with
+        | .ok (ms'', f') => .ok (ms'', f && f')
+        | .error r => .error r
+    | _ => setPairs env fields ms rest                      -- no field has a non-text name
+/-- set the field named `key` (first declared field of that name): the member that is there
+    (`cur`), else a fresh one; `none` = no such field -/
+def setOne (env : Env) : List Schema → Str → Option Elem → Native → Option (Except Raise (Elem × Bool))
+  | [], _, _, _ => none
+  | f :: fs, key, cur, v =>
+    if f.name = some key then some (setNative env f (cur.getD (blank env f)) v) else setOne env fs key cur v
 def setMembers (env : Env) (member : Schema) : List Native → Except Raise (List Elem × Bool)
   | [] => .ok ([], true)
   | x :: xs =>
-    match setNative env member x with
+    match setNative env member (blank env member) x with
     | .error r => .error r
     | .ok (e, f) =>
       match setMembers env member xs with
@@ -175,11 +309,32 @@ def value : Elem → Native
   | .dict ms => .dict (valueMembers ms)
   | .seq ms => .list (valueList ms)
 where
-  valueMembers : List (Str × Elem) → List (Str × Native)
+  valueMembers : List (Str × Elem) → List (Native × Native)
     | [] => []
-    | (k, e) :: rest => (k, value e) :: valueMembers rest
+    | (k, e) :: rest => (.text k, value e) :: valueMembers rest
   valueList : List Elem → List Native
     | [] => []
     | e :: es => value e :: valueList es
+
+mutual
+/-- the hypothesis of the re-import theorem, evaluated on the leaves that occur in the element:
+    a fresh leaf-like of the same kind, set with the leaf's exported value, gets into the leaf's
+    state (value, text, parts).  With `needFlag` it must also report True. -/
+def leafStable (env : Env) (needFlag : Bool) : Schema → Elem → Bool
+  | .leaf _ _ k, .leaf v u p =>
+    decide ((env.adapt k (env.blankLeaf k) v).2 = (v, u, p)) && (!needFlag || (env.adapt k (env.blankLeaf k) v).1)
+  | .dict _ _ _ _ fields, .dict ms => leafStableMs env needFlag fields ms
+  | .seq _ _ member, .seq ms => leafStableL env needFlag member ms
+  | _, _ => false
+def leafStableMs (env : Env) (needFlag : Bool) (fields : List Schema) : List (Str × Elem) → Bool
+  | [] => true
+  | (k, m) :: rest =>
+    (match findField k fields with
+     | some f => leafStable env needFlag f m
+     | none => false) && leafStableMs env needFlag fields rest
+def leafStableL (env : Env) (needFlag : Bool) (member : Schema) : List Elem → Bool
+  | [] => true
+  | m :: rest => leafStable env needFlag member m && leafStableL env needFlag member rest
+end
 
 end Flatland.C03
